@@ -1324,6 +1324,60 @@ func planFor(prop, tier string) (*plan, error) {
 			}
 			return out
 		}
+	case "C19":
+		// state reports as the user's emitter receives them (through the root package's adapter)
+		var ps []*pg.Program
+		for _, n := range []string{"single", "chain2", "fork", "join"} {
+			f := exprConc(pg.Shape(n))
+			f.Emitters = "1"
+			f.Instrument = true
+			ps = append(ps, flowProg(f, "INS:"+n))
+		}
+		for _, f := range pg.WithPredFallback(pg.Shape("chain2"), []string{"shared"}, 1) {
+			g := exprConc(f)
+			g.Emitters = "1"
+			ps = append(ps, flowProg(g, "INS-PF"))
+		}
+		{
+			f := pg.Shape("fork")
+			f.Conc = ""
+			f.Emitters = "1"
+			ps = append(ps, flowProg(f, "INS-default:fork"))
+			q := &pg.Parallel{Items: []pg.Item{{Kind: "task", Err: true}, {Kind: "slice", Idx: true, Err: true}}, Conc: "expr", Emitters: "1"}
+			ps = append(ps, parProg(q, "INS-PAR"))
+		}
+		pl.progs = numIDs(ps)
+		pl.scen = func(p *pg.Program) []genrt.Scenario {
+			var out []genrt.Scenario
+			ns := []int{1, 2}
+			if strings.HasPrefix(p.Fam, "INS-default") {
+				ns = []int{0}
+			}
+			for _, n := range ns {
+				for _, ticks := range []int{1, 2} {
+					if ticks == 2 && (n != 1 || th == false && jobCount(p, &genrt.Scenario{}) > 2) {
+						continue
+					}
+					for _, sc := range predCombos(p, base(p, n)) {
+						sc.Ticks = ticks
+						if n == 0 {
+							sc.GOMAXP = 1
+						}
+						out = append(out, sc)
+					}
+				}
+				fl := failable(p)
+				if len(fl) > 0 {
+					sc := withDec(base(p, n), fl[:1], probe.Fail)
+					sc.Ticks = 1
+					if n == 0 {
+						sc.GOMAXP = 1
+					}
+					out = append(out, sc)
+				}
+			}
+			return out
+		}
 	case "C15":
 		var ps []*pg.Program
 		mk := func(p *pg.Program) { p.F.Wrap = true; ps = append(ps, p) }
